@@ -686,3 +686,376 @@ COMPILED_MODULES = ['builtins', 'sys', 'zlib', 'math', 'cmath', 'time', 'itertoo
                     '_lsprof', '_bz2', '_lzma', 'mmap', 'fcntl', 'resource', '_hashlib', '_blake2', '_md5', '_sha1',
                     '_sha2', '_sha3', 'pyexpat', '_elementtree', '_statistics', '_zoneinfo', '_posixsubprocess',
                     '_multibytecodec', '_uuid', '_ast', '_tokenize', '_typing', '_socket']
+
+
+# ---------------------------------------------------------------------------------------------
+# systematic families (same case format as hostile_cases)
+
+def _case(name, text, positions=None, files=None, fname='main.py'):
+    return {'name': name, 'files': files or {}, 'fname': fname, 'text': text, 'positions': positions}
+
+
+def target_shapes(depth=3):
+    """[(label, source text of a target, names it binds)]: every shape of assignment target up to `depth`:
+    name / attribute / subscript leaves, bare and parenthesised tuples, lists, one starred element per level whose
+    value is a leaf, a tuple or a list."""
+    leaves = [('name', 'n{i}', True), ('attr', 'o.a{i}', False), ('sub', 's[{i}]', False), ('attr-call', 'f().a{i}', False),
+              ('sub-slice', 's[{i}:]', False)]
+    counter = [0]
+
+    def fresh():
+        counter[0] += 1
+        return counter[0]
+
+    def leaf(kind):
+        for k, tpl, binds in leaves:
+            if k == kind:
+                i = fresh()
+                return tpl.format(i=i), (['n%d' % i] if binds else [])
+        raise KeyError(kind)
+
+    shapes = []
+
+    def add(label, text, names):
+        shapes.append((label, text, names))
+
+    # depth 1: leaves
+    for k, _, _ in leaves:
+        t, n = leaf(k)
+        add(k, t, n)
+    seqs = [('tuple', '%s', ', '), ('ptuple', '(%s)', ', '), ('list', '[%s]', ', ')]
+
+    def seq(kind, elems):
+        fmt = dict((k, f) for k, f, _ in seqs)[kind]
+        body = ', '.join(elems)
+        if kind in ('tuple', 'ptuple') and len(elems) == 1:
+            body += ','
+        return fmt % body
+
+    def build(d, allow_bare):
+        """all (label, text, names) of composite shapes of nesting depth d (d >= 2)"""
+        out = []
+        inner_kinds = ['name', 'attr', 'sub']
+        for kind in ('tuple', 'ptuple', 'list'):
+            if kind == 'tuple' and not allow_bare:
+                continue
+            # plain sequences of leaves / with one nested element / with a starred element
+            variants = []
+            a, an = leaf('name')
+            b, bn = leaf('attr')
+            c, cn = leaf('sub')
+            variants.append(('leaves', [a, b, c], an + bn + cn))
+            a, an = leaf('name')
+            variants.append(('single', [a], an))
+            for sk in inner_kinds:
+                a, an = leaf('name')
+                s, sn = leaf(sk)
+                variants.append(('star-' + sk, [a, '*' + s], an + sn))
+                s, sn = leaf(sk)
+                variants.append(('only-star-' + sk, ['*' + s], sn))
+            if d >= 2:
+                for ik in ('ptuple', 'list'):
+                    for lab, t, n in (build(d - 1, False) if d > 2 else
+                                      [('leaves', seq(ik, [leaf('name')[0], leaf('attr')[0]]), None)]):
+                        names_in = re.findall(r'\bn\d+\b', t)
+                        a, an = leaf('name')
+                        inner = t if d > 2 else t
+                        variants.append(('nested-%s(%s)' % (ik, lab), [a, inner], an + names_in))
+                        a, an = leaf('name')
+                        variants.append(('star-nested-%s(%s)' % (ik, lab), [a, '*' + inner], an + names_in))
+                        variants.append(('mid-star-nested-%s(%s)' % (ik, lab), [leaf('sub')[0], '*' + inner, leaf('name')[0]],
+                                         names_in))
+                        if d > 2:
+                            break
+            for lab, elems, names in variants:
+                text = seq(kind, elems)
+                out.append(('%s:%s' % (kind, lab), text, re.findall(r'\bn\d+\b', text)))
+        return out
+
+    for d in range(2, depth + 1):
+        for lab, t, n in build(d, True):
+            add('d%d:%s' % (d, lab), t, n)
+    # dedupe by shape text with the numbers blanked
+    seen, out = set(), []
+    for lab, t, n in shapes:
+        key = re.sub(r'\d+', '#', t)
+        if key in seen:
+            continue
+        seen.add(key)
+        out.append((lab, t, n))
+    return out
+
+
+TARGET_CONTEXTS = ('assign', 'chained-assign', 'for', 'async-for', 'with', 'with-2-items', 'async-with', 'listcomp', 'dictcomp',
+                   'genexp-nested', 'del', 'for-in-function', 'assign-in-class')
+
+
+def target_cases():
+    """every target shape in every binding context; the bound names are read and completed afterwards"""
+    out = []
+    for lab, t, names in target_shapes():
+        use = ''.join('%s\n%s.zz\n' % (n, n) for n in names[:2]) or 'o.zz\n'
+        bare = not t.startswith(('(', '['))
+        pt = '(%s)' % t if bare and ',' in t else t        # where a bare tuple is not allowed
+        for ctx in TARGET_CONTEXTS:
+            if ctx == 'assign':
+                text = '%s = v\n%s' % (t, use)
+            elif ctx == 'chained-assign':
+                text = 'first = %s = v\n%s' % (t, use)
+            elif ctx == 'for':
+                text = 'for %s in v:\n    pass\n%s' % (t, use)
+            elif ctx == 'async-for':
+                text = 'async def g():\n    async for %s in v:\n        pass\n    return %s\n' % (t, (names or ['o'])[0])
+            elif ctx == 'with':
+                text = 'with v as %s:\n    pass\n%s' % (pt, use)
+            elif ctx == 'with-2-items':
+                text = 'with v as %s, w as other:\n    other\n%s' % (pt, use)
+            elif ctx == 'async-with':
+                text = 'async def g():\n    async with v as %s:\n        pass\n' % pt
+            elif ctx == 'listcomp':
+                text = 'r = [%s for %s in v]\nr.zz\n' % ((names or ['o'])[0], t)
+            elif ctx == 'dictcomp':
+                text = 'r = {k: %s for k, %s in v if k}\n' % ((names or ['o'])[0], pt)
+            elif ctx == 'genexp-nested':
+                text = 'r = (%s for row in v for %s in row)\n' % ((names or ['o'])[0], t)
+            elif ctx == 'del':
+                if '*' in t:
+                    continue
+                text = 'del %s\n%s' % (t, use)
+            elif ctx == 'for-in-function':
+                text = 'def g(o, s, v):\n    for %s in v:\n        %s = v\n    return %s\ng().zz\n' % (t, t, (names or ['o'])[0])
+            elif ctx == 'assign-in-class':
+                text = 'class K:\n    %s = v\nK.zz\nK().zz\n' % t
+            out.append(_case('target:%s:%s' % (ctx, lab), text))
+    return out
+
+
+def del_cases():
+    """del of names / attributes / subscripts in module, class and function bodies, followed by every kind of
+    request on the class, the instance, the module (imported from a second file) and the name itself"""
+    out = []
+    dels = [('name', 'del x'), ('name-pair', 'del x, y'), ('paren', 'del (x)'), ('tuple', 'del (x, y)'), ('list', 'del [x, y]'),
+            ('attr', 'del x.a'), ('sub', 'del x[0]'), ('slice', 'del x[1:2]'), ('mixed', 'del x, y.a, z[0]'),
+            ('nested', 'del (x, [y, (z,)])')]
+    pres = [('unbound', ''), ('bound-before', 'x = 1\ny = ""\nz = []\n'), ('bound-after', None), ('bound-in-branch', 'if c:\n    x = 1\n')]
+    for dl, d in dels:
+        for pl, pre in pres:
+            after = 'x = 2\ny = 3\n' if pre is None else ''
+            pre_ = pre or ''
+            body = pre_ + d + '\n' + after
+            ind = lambda s, n=4: ''.join(' ' * n + l + '\n' for l in s.splitlines())
+            name = '%s:%s' % (dl, pl)
+            # module body
+            out.append(_case('del:module:' + name, body + 'x\nx.zz\ny\n'))
+            out.append(_case('del:module-imported:' + name, 'import m\nm.zz\nm.x\nfrom m import x\nx.zz\nfrom m import *\ny\n',
+                             files={'m.py': body}))
+            # class body
+            out.append(_case('del:class:' + name, 'class A:\n' + ind(body) + '    def f(self):\n        return self.x\n'
+                             'A.zz\nA.x\nA().zz\nA().x\nA().f().zz\nclass B(A):\n    pass\nB.zz\nB().x\n'))
+            out.append(_case('del:class-imported:' + name, 'from m import A\nA.zz\nA().x\nimport m\nm.A.x\nclass B(m.A): pass\nB().zz\n',
+                             files={'m.py': 'class A:\n' + ind(body)}))
+            # function body
+            out.append(_case('del:function:' + name, 'def f(z=None):\n' + ind(body) + '    return x\nf().zz\nf\n'))
+            # method body: del self.x
+            out.append(_case('del:method:' + name, 'class A:\n    def __init__(self):\n        self.x = 1\n' + ind(body, 8) +
+                             '        del self.x\n    def g(self):\n        del self.x, self.q\n        return self.x\nA().zz\nA().x\nA().g().zz\n'))
+            # nested class in a function
+            out.append(_case('del:class-in-function:' + name, 'def f():\n    class A:\n' + ind(body, 8) + '    return A\nf().zz\nf()().x\n'))
+    out.append(_case('del:global-nonlocal', 'def f():\n    global g\n    del g\n    def h():\n        nonlocal v\n        del v\n'
+                                           '    v = 1\n    return v\ng = 1\ng.zz\nf().zz\nclass A:\n    global g\n    del g\nA.zz\n'))
+    out.append(_case('del:in-loop', 'for i in r:\n    x = i\n    del x\nx\nclass A:\n    for j in r:\n        del j\nA.zz\nA.j\n'))
+    out.append(_case('del:comprehension-var', 'class A:\n    y = [q for q in r]\n    del q\nA.zz\n'))
+    return out
+
+
+FLAT_KINDS = ('assign', 'expr', 'if', 'if-else', 'elif-chain', 'for', 'while', 'try', 'try-finally', 'with', 'def', 'class',
+              'import', 'augassign', 'lambda', 'comprehension', 'mixed')
+
+
+def flat_text(kind, n, indent=''):
+    """n sequential statements of one kind; every one (re)binds v (and most read it)"""
+    L = []
+    if kind == 'elif-chain':
+        L.append('if c0:\n    v = 0\n')
+        for i in range(1, n):
+            L.append('elif c%d:\n    v = %d\n' % (i, i))
+    else:
+        for i in range(n):
+            if kind == 'assign':
+                L.append('v = %d\n' % i)
+            elif kind == 'expr':
+                L.append('v(%d)\n' % i)
+            elif kind == 'if':
+                L.append('if c:\n    v = %d\n' % i)
+            elif kind == 'if-else':
+                L.append('if c:\n    v = %d\nelse:\n    w = v\n' % i)
+            elif kind == 'for':
+                L.append('for v in r:\n    w = v\n')
+            elif kind == 'while':
+                L.append('while v:\n    v = v.n\n')
+            elif kind == 'try':
+                L.append('try:\n    v = %d\nexcept E as e:\n    w = e\n' % i)
+            elif kind == 'try-finally':
+                L.append('try:\n    v = %d\nfinally:\n    w = v\n' % i)
+            elif kind == 'with':
+                L.append('with c as v:\n    w = v\n')
+            elif kind == 'def':
+                L.append('def v(a=v):\n    return a\n')
+            elif kind == 'class':
+                L.append('class v(v):\n    a = v\n')
+            elif kind == 'import':
+                L.append('import os as v\n')
+            elif kind == 'augassign':
+                L.append('v += %d\n' % i)
+            elif kind == 'lambda':
+                L.append('v = lambda a=v: a\n')
+            elif kind == 'comprehension':
+                L.append('v = [a for a in v]\n')
+            elif kind == 'mixed':
+                L.append(['v = %d\n' % i, 'if v:\n    v = v.a\n', 'for w in v:\n    v = w\n', 'try:\n    v = w\nexcept E:\n    pass\n',
+                          'def f%d(a=v):\n    return v\n' % i, 'with v as w:\n    pass\n'][i % 6])
+    text = 'v = None\nw = None\n' + ''.join(L)
+    if indent:
+        text = ''.join(indent + l + '\n' for l in text.splitlines())
+    return text
+
+
+def flat_cases(sizes, kinds=FLAT_KINDS):
+    """long FLAT programs: lint + cursor requests at the end, in the middle and at the start; at module level, inside
+    a function body, inside a loop body, inside a class body, and as a module imported by the edited file"""
+    out = []
+    for n in sizes:
+        for kind in kinds:
+            body = flat_text(kind, n)
+            # module level
+            text = body + 'v\nv.zz\n'
+            L = Lines(text)
+            last = len(L) - 1                   # the 'v.zz' row
+            mid = max(3, last // 2)
+            while mid > 3 and (not L.lines[mid - 1].strip() or L.lines[mid - 1].startswith((' ', 'el', 'ex', 'fi'))):
+                mid -= 1
+            pos = [(last - 1, 1), (last, 2), (last, 4), (mid, 0), (mid, len(L.lines[mid - 1])), (3, len(L.lines[2])), (1, 1)]
+            out.append(_case('flat:module:%s:%d' % (kind, n), text, positions=pos))
+            if n <= 1000:
+                for where, head, tail in (('function', 'def g(c, r, E):\n', '    return v\ng().zz\n'),
+                                          ('loop', 'for k in r:\n', 'v.zz\n'),
+                                          ('class', 'class K:\n', 'K.v.zz\nK().w\n')):
+                    t2 = head + flat_text(kind, n, '    ') + tail
+                    L2 = Lines(t2)
+                    rows = len(L2) - 1
+                    pos2 = [(rows, len(L2.lines[rows - 1]) - 2), (rows, len(L2.lines[rows - 1])), (rows - 1, len(L2.lines[rows - 2])),
+                            (rows // 2, len(L2.lines[rows // 2 - 1]))]
+                    out.append(_case('flat:%s:%s:%d' % (where, kind, n), t2, positions=pos2))
+                out.append(_case('flat:imported:%s:%d' % (kind, n), 'import big\nbig.v\nbig.v.zz\nfrom big import v, w\nv.zz\nfrom big import *\nw\n',
+                                 files={'big.py': body}))
+    return out
+
+
+def char_cases():
+    """lone surrogates, control characters, very long lines and identifiers, brackets nested up to below the parser's limit"""
+    out = []
+    for cp in (0xd800, 0xdc80, 0xdfff):
+        ch = chr(cp)
+        out.append(_case('chars:surrogate-in-string:%04x' % cp, 'x = "%s"\nx\nx.zz\n' % ch))
+        out.append(_case('chars:surrogate-in-comment:%04x' % cp, 'x = 1 # %s\nx\n' % ch))
+        out.append(_case('chars:surrogate-in-identifier:%04x' % cp, 'x%s = 1\nx\n' % ch))
+        out.append(_case('chars:surrogate-escape-in-string:%04x' % cp, 'x = "\\u%04x"\nx\nx.zz\ny = x.encode()\n' % cp))
+    out.append(_case('chars:surrogate-pair-escape', 'x = "\\ud83d\\ude00"\nx.zz\n'))
+    for cp in list(range(1, 9)) + [0x0b, 0x0c] + list(range(0x0e, 0x20)) + [0x7f, 0x80, 0x85, 0x9f, 0xa0, 0xad, 0x200b, 0x2028, 0xfeff,
+                                                                           0xfffe, 0xffff, 0x10ffff]:
+        ch = chr(cp)
+        out.append(_case('chars:control-in-string:%04x' % cp, 'x = "a%sb"\nx\nx.zz\n' % ch))
+        out.append(_case('chars:control-in-comment:%04x' % cp, 'x = 1 # a%sb\nx\nx.zz\n' % ch))
+        out.append(_case('chars:control-in-code:%04x' % cp, 'x = 1\nx%s\ny = x\n' % ch, positions=[(2, 1), (2, 2), (3, 5)]))
+        out.append(_case('chars:control-in-triple-string:%04x' % cp, 'x = """a\n%s\nb"""\nx.zz\n' % ch))
+    out.append(_case('chars:nul-in-string', 'x = "a\x00b"\nx\n'))
+    out.append(_case('chars:nul-in-comment', 'x = 1 # \x00\nx\n'))
+    for n in (1000, 20000, 200000):
+        ends = lambda t: [(len(Lines(t)) - 1, 0), (len(Lines(t)) - 1, 1), (len(Lines(t)) - 1, 2), (1, 3),
+                          (1, min(n // 2, len(Lines(t).lines[0]) - 1)), (1, 1)]
+        t = 'x = [' + ', '.join('a%d' % i for i in range(n // 6)) + ']\nx.zz\n'
+        out.append(_case('chars:long-line-list:%d' % n, t, positions=ends(t)))
+        t = 'x = "' + 'a' * n + '"\nx.zz\n'
+        out.append(_case('chars:long-line-string:%d' % n, t, positions=ends(t)))
+        t = 'x = 1 # ' + 'c' * n + '\nx.zz\n'
+        out.append(_case('chars:long-line-comment:%d' % n, t, positions=ends(t)))
+        t = 'x = ' + ' + '.join(['y'] * min(n // 4, 180)) + '\nx.zz\n'
+        out.append(_case('chars:long-line-binop:%d' % n, t, positions=ends(t)))
+        t = 'x = f(' + ', '.join('k%d=%d' % (i, i) for i in range(n // 8)) + ')\nx.zz\n'
+        out.append(_case('chars:long-line-call:%d' % n, t, positions=ends(t)))
+        t = 'x = "' + 'é' * (n // 2) + '"; y = x\ny.zz\n'
+        out.append(_case('chars:long-line-non-ascii:%d' % n, t, positions=ends(t) + [(1, n // 2 + 12), (1, n // 2 + 13)]))
+    for n in (100, 1000, 5000, 50000):
+        ident = 'i' * n
+        t = '%s = 1\n%s\n%s.zz\nclass %sC:\n    %s = 2\n%sC.%s\n' % (ident, ident, ident, ident, ident, ident, ident)
+        out.append(_case('chars:long-identifier:%d' % n, t,
+                         positions=[(2, n), (2, n // 2), (3, n + 1), (3, n + 3), (6, 2 * n + 2), (6, n + 1), (1, 0)]))
+        t = 'import %s\nfrom %s import %s\n%s\n' % (ident, ident, ident, ident)
+        out.append(_case('chars:long-identifier-import:%d' % n, t, positions=[(1, 7 + n), (1, 8), (2, 5 + n), (2, 13 + 2 * n), (3, n)]))
+    for n in (50, 100, 150, 190, 199, 200):
+        for o, c in ('()', '[]', '{}'):
+            inner = 'y' if o != '{' else 'y'
+            t = 'x = ' + o * n + inner + (',' if o == '(' else '') + c * n + '\nx.zz\n'
+            out.append(_case('chars:nested-brackets:%s:%d' % (o + c, n), t,
+                             positions=[(2, 2), (2, 4), (1, 4 + n), (1, 5 + n), (1, 4 + n // 2), (1, 3)]))
+        t = 'x = ' + 'f(' * n + 'y' + ')' * n + '\nx.zz\n'
+        out.append(_case('chars:nested-calls:%d' % n, t, positions=[(2, 2), (2, 4), (1, 4 + 2 * n), (1, 5 + 2 * n), (1, 5)]))
+        t = 'x = ' + '(lambda: ' * min(n, 90) + 'y' + ')' * min(n, 90) + '\nx.zz\n'
+        out.append(_case('chars:nested-lambdas:%d' % min(n, 90), t, positions=[(2, 2), (2, 4), (1, 10)]))
+        t = 'x = y' + '[0]' * n + '.a' * n + '\nx.zz\n'
+        out.append(_case('chars:subscript-attribute-chain:%d' % n, t, positions=[(2, 2), (2, 4), (1, 5 + 3 * n + 2), (1, 5 + 5 * n)]))
+    # dedupe by name (nested-lambdas repeats)
+    seen, res = set(), []
+    for c in out:
+        if c['name'] not in seen:
+            seen.add(c['name'])
+            res.append(c)
+    return res
+
+
+_FAMILY_CACHE = {}
+
+
+def family(name, tier='quick'):
+    key = (name, tier if name == 'flat' else '')
+    if key not in _FAMILY_CACHE:
+        _FAMILY_CACHE[key] = _family(name, tier)
+    return _FAMILY_CACHE[key]
+
+
+def _family(name, tier='quick'):
+    if name == 'hostile':
+        return hostile_cases()
+    if name == 'targets':
+        return target_cases()
+    if name == 'del':
+        return del_cases()
+    if name == 'chars':
+        return char_cases()
+    if name == 'flat':
+        if tier == 'quick':
+            return (flat_cases((200,)) + flat_cases((500,), ('if', 'for', 'try', 'def', 'elif-chain', 'assign', 'mixed')) +
+                    flat_cases((1000,), ('if', 'assign')) + flat_cases((3000,), ('assign', 'if')))
+        return flat_cases((200, 500, 1000)) + flat_cases((3000,), ('assign', 'expr', 'if', 'for', 'try', 'def', 'elif-chain', 'with',
+                                                                    'import', 'mixed'))
+    raise KeyError(name)
+
+
+def longest_body(text):
+    """number of statements in the longest statement list of the text (0 if it does not parse)"""
+    try:
+        with warnings.catch_warnings():
+            warnings.simplefilter('ignore')
+            tree = ast.parse(text)
+    except BaseException:
+        return 0
+    best = 0
+    stack = [tree]
+    while stack:
+        node = stack.pop()
+        for f in ('body', 'orelse', 'finalbody', 'handlers'):
+            v = getattr(node, f, None)
+            if isinstance(v, list):
+                best = max(best, len(v))
+        stack.extend(ast.iter_child_nodes(node))
+    return best
